@@ -1,6 +1,7 @@
 /-
 C05 helper lemmas, part 7: every list the driver's enumeration produces is a permutation of the
-input, hence every outcome the executable model prints is one the property theorems cover.
+input (whatever the comparator), hence every outcome the executable model prints is one the
+property theorems cover.
 -/
 import ArvVerif.Model.C05_Enum
 namespace ArvVerif.C05
@@ -27,21 +28,53 @@ theorem perms_perm : ∀ (l : List α), ∀ r ∈ perms l, r.Perm l := by
     obtain ⟨p, hp, hr'⟩ := List.mem_flatMap.1 hr
     exact (insertions_perm a p r hr').trans ((ih p hp).cons a)
 
-theorem tieGroups_flatten (lt : α → α → Bool) : ∀ (l : List α), (tieGroups lt l).flatten = l := by
+theorem filter_partition_perm (p : α → Bool) (l : List α) :
+    (l.filter p ++ l.filter (fun x => !p x)).Perm l := by
+  induction l with
+  | nil => exact List.Perm.refl _
+  | cons a l ih =>
+    cases hp : p a
+    · simp only [List.filter_cons, hp, Bool.false_eq_true, if_false, Bool.not_false, if_true]
+      exact (List.perm_middle).trans (ih.cons a)
+    · simp only [List.filter_cons, hp, if_true, Bool.not_true, Bool.false_eq_true, if_false, List.cons_append]
+      exact ih.cons a
+
+theorem minOf_mem (lt : α → α → Bool) : ∀ (l : List α) (a : α), minOf lt a l ∈ a :: l := by
   intro l
   induction l with
-  | nil => rfl
-  | cons a l ih =>
-    unfold tieGroups
-    cases hg : tieGroups lt l with
-    | nil => rw [hg] at ih; simp at ih; simp [← ih]
-    | cons g gs =>
-      rw [hg] at ih
-      cases g with
-      | nil => simp only; simp at ih ⊢; exact ih
-      | cons b g' =>
-        simp only
-        split <;> simp at ih ⊢ <;> exact ih
+  | nil => intro a; simp [minOf]
+  | cons b l ih =>
+    intro a
+    unfold minOf
+    simp only [List.foldl_cons]
+    have := ih (if lt b a then b else a)
+    unfold minOf at this
+    rcases List.mem_cons.1 this with h | h
+    · rw [h]; split <;> simp
+    · exact List.mem_cons_of_mem _ (List.mem_cons_of_mem _ h)
+
+theorem sortedGroups_flatten_perm (lt : α → α → Bool) : ∀ (n : Nat) (l : List α),
+    (sortedGroups lt n l).flatten.Perm l := by
+  intro n
+  induction n with
+  | zero =>
+    intro l
+    unfold sortedGroups
+    split
+    · rename_i h
+      have : l = [] := by simpa using h
+      subst this; exact List.Perm.refl _
+    · simp
+  | succ n ih =>
+    intro l
+    cases l with
+    | nil => exact List.Perm.refl _
+    | cons a l =>
+      unfold sortedGroups
+      simp only [List.flatten_cons]
+      refine ((List.Perm.refl _).append (ih _)).trans ?_
+      have := filter_partition_perm (fun x => !lt (minOf lt a l) x) (a :: l)
+      simpa using this
 
 theorem groupProducts_perm : ∀ (gs : List (List α)), ∀ r ∈ groupProducts gs, r.Perm gs.flatten := by
   intro gs
@@ -50,7 +83,6 @@ theorem groupProducts_perm : ∀ (gs : List (List α)), ∀ r ∈ groupProducts 
   | cons g gs ih =>
     intro r hr
     unfold groupProducts at hr
-    simp only [List.foldr_cons] at hr
     obtain ⟨p, hp, hr'⟩ := List.mem_flatMap.1 hr
     obtain ⟨q, hq, rfl⟩ := List.mem_map.1 hr'
     simp only [List.flatten_cons]
@@ -65,9 +97,7 @@ theorem allSorted_perm (lt : α → α → Bool) (l : List α) (rs : List (List 
   · cases h
   · cases h
     intro r hr
-    have := groupProducts_perm _ r hr
-    rw [tieGroups_flatten] at this
-    exact this.trans (List.mergeSort_perm _ _)
+    exact (groupProducts_perm _ r hr).trans (sortedGroups_flatten_perm lt _ l)
 
 /-- a run whose sort results are all taken from the enumeration satisfies `RunPerm` -/
 theorem runPerm_of_enumerated (env : Env) (sorter : Class → List Slot → List Slot)
